@@ -21,11 +21,11 @@ def _p(level, explanation='', assumptions=None, rule='', dev_profile=False, kani
             'dev_profile': dev_profile, 'kani_quick': kani_quick}
 
 PROPS = {
-    'C01': _p('exploration'),
-    'C02': _p('exploration'),
+    'C01': _p('proof', explanation='compose proved to be the pushout (universal property)'),
+    'C02': _p('proof', explanation='strict tensor proved to be juxtaposition'),
     'C03': _p('exploration'),
-    'C04': _p('exploration'),
-    'C05': _p('exploration'),
+    'C04': _p('proof', explanation='dagger/spider definitions proved'),
+    'C05': _p('proof', explanation='wf + type postconditions of the strict cone'),
     'C06': _p('proof', explanation='every finite-function / semifinite-function operation under a Verus contract stating its set-theoretic table; coequalizer against the universal property (is_coeq); coequalizer_universal iff constant on fibres'),
     'C07': _p('proof', explanation='every array primitive of the Vec backend under a Verus contract stating its scalar definition; bodies extracted from /repo each run', kani_quick=True),
     'C08': _p('proof', explanation='every segmented-array operation under a Verus contract in list-of-lists (segment/offset) form plus the size invariant; iterator next/len/size_hint; checked constructors accept iff'),
@@ -37,7 +37,7 @@ PROPS = {
     'C14': _p('exploration'),
     'C15': _p('exploration'),
     'C16': _p('exploration'),
-    'C17': _p('exploration', dev_profile=True),
+    'C17': _p('proof', explanation='is_monogamous and degrees proved; acyclicity bounded', dev_profile=True),
     'C18': _p('exploration'),
     'C19': _p('exploration'),
     'C20': _p('exploration'),
